@@ -78,7 +78,7 @@ _add(
         "product: every (m, n) up to the tier's bound with random key sets, result set compared with the reference Cartesian product. distinct "
         "non-trivial = range boundaries + extraction cases with >= 2 non-empty categories + union pairs + product shapes"
     ),
-    deciding={"any": {"classified_integers": 3001, "extract_cases": 300, "union_cases": 50, "union_second_sums": 30, "product_shapes": 20, "extract_unknown_package": 1, "extract_out_of_range": 1}},
+    deciding={"any": {"classified_integers": 3001, "extract_cases": 300, "union_cases": 50, "union_second_sums": 30, "products_after_changing_the_keys": 10, "product_shapes": 20, "extract_unknown_package": 1, "extract_out_of_range": 1}},
     headline=["classified_integers", "extract_cases", "union_cases", "product_shapes", "product_results_checked"],
 )
 
@@ -191,7 +191,7 @@ _add(
         "or the default the base evaluator inserts); absent and empty expression. Oracle: Boolean value of the AST; message present iff "
         "unfulfilled. distinct non-trivial = distinct expression strings mixing >= 2 operator kinds"
     ),
-    deciding={"any": {"expressions": 300, "expressions_mixing_operators": 100, "unfulfilled_results": 1000, "fulfilled_results": 1000, "async_evaluations": 500, "empty_expressions": 2, "evaluations_without_messages": 1000, "async_evaluations_under_random_completion_order": 200, "evaluations_with_shipped_evaluators": 200}},
+    deciding={"any": {"expressions": 300, "expressions_mixing_operators": 100, "unfulfilled_results": 1000, "fulfilled_results": 1000, "async_evaluations": 500, "empty_expressions": 2, "evaluations_without_messages": 1000, "async_evaluations_under_random_completion_order": 200, "evaluations_with_shipped_evaluators": 200, "concurrent_evaluations": 200}},
     headline=["expressions", "expressions_mixing_operators", "fulfilled_results", "unfulfilled_results", "async_evaluations"],
 )
 
@@ -242,7 +242,7 @@ _add(
         "kept) equals the form of the first parse; requirement evaluation of the pool's expressions before == after the history. distinct "
         "non-trivial = distinct histories"
     ),
-    deciding={"any": {"histories": 50, "mutations": 1000, "nested_mutations": 200, "hits_compared": 2000, "floods": 2, "evaluations_compared": 300}},
+    deciding={"any": {"histories": 50, "mutations": 1000, "nested_mutations": 200, "hits_compared": 2000, "floods": 2, "evaluations_compared": 300, "cross_parser_calls": 500}},
     headline=["histories", "mutations", "nested_mutations", "hits_compared", "floods", "evaluations_compared", "shared_objects_seen"],
 )
 
@@ -295,7 +295,7 @@ _add(
         "validate_segment_level. Rewriting happens on the generator's parts, whitespace kept. distinct non-trivial = distinct (tree, assignment) "
         "with SOLL at >= 2 kinds of node"
     ),
-    deciding={"any": {"trees": 50, "relation_instances": 100, "soll_at:G": 20, "soll_at:S": 20, "soll_at:F": 20, "segment_relation_instances": 30, "unknown_decided_by_soll_only": 3}},
+    deciding={"any": {"trees": 50, "relation_instances": 100, "soll_at:G": 20, "soll_at:S": 20, "soll_at:F": 20, "segment_relation_instances": 30, "unknown_decided_by_soll_only": 3, "default_flag_after_failed_run": 5}},
     headline=["trees", "relation_instances", "relation_instances_not_implemented", "segment_relation_instances"],
 )
 
@@ -312,7 +312,7 @@ _add(
         "the element's result in the tree run == validate_data_element_freetext on the element alone with nothing yielding. distinct non-trivial = "
         "distinct (tree, assignment, schedule) with >= 2 elements' format constraints evaluated and >= 2 awaitables parked at once"
     ),
-    deciding={"any": {"trees": 100, "fc_events": 500, "trees_with_concurrent_elements": 50, "elements_compared_with_standalone": 300, "trees_with_shared_keys": 20, "runs_with_stale_text_in_context": 50}},
+    deciding={"any": {"trees": 100, "fc_events": 500, "trees_with_concurrent_elements": 50, "elements_compared_with_standalone": 300, "trees_with_shared_keys": 20, "runs_with_stale_text_in_context": 50, "trees_with_same_instant_in_different_notations": 20}},
     headline=["trees", "fc_events", "trees_with_concurrent_elements", "elements_compared_with_standalone"],
 )
 
@@ -365,6 +365,6 @@ _add(
         "evaluating the round-tripped tree == evaluating the original. distinct non-trivial = distinct round-tripped trees, content evaluation "
         "results and extracts"
     ),
-    deciding={"any": {"trees": 200, "evaluations_compared": 100, "results_with_undetermined_outcome": 20, "round_trips:ahb-result": 50, "round_trips:requirement-result": 100, "round_trips:format-result": 100, "round_trips:content-evaluation-result": 300, "round_trips:categorized-key-extract": 50, "round_trips:evaluated-format-constraint": 200, "concise_dumps_before_round_trip": 100, "unsanitized_extracts": 50}},
+    deciding={"any": {"trees": 200, "evaluations_compared": 100, "results_with_undetermined_outcome": 20, "round_trips:ahb-result": 50, "round_trips:requirement-result": 100, "round_trips:format-result": 100, "round_trips:content-evaluation-result": 300, "round_trips:categorized-key-extract": 50, "round_trips:evaluated-format-constraint": 200, "concise_dumps_before_round_trip": 100, "unsanitized_extracts": 50, "staged_resolutions": 30, "rejected_documents_in_between": 100}},
     headline=["trees", "evaluations_compared", "results_with_undetermined_outcome"],
 )
